@@ -13,6 +13,7 @@
 From Coq Require Import List NArith ZArith Bool Lia.
 Import ListNotations.
 From GY Require Import Model.Lex Model.Parse Model.Utf8 Spec.C16 Spec.C02 Proofs.LexProofs Proofs.ParseProofs Proofs.Utf8Proofs.
+From GY Require Import Model.Printer Proofs.PrinterProofs.
 Local Open Scope Z_scope.
 
 (* (1) the shape of the result: statements and errors never come together *)
@@ -122,3 +123,40 @@ Example C02_decode_ex :
   decode [97; 195; 169; 226; 130; 172; 240; 159; 152; 128; 255; 192; 128; 237; 160; 128; 226; 130]%N =
   [97; 233; 8364; 128512; 65533; 65533; 65533; 65533; 65533; 65533; 65533; 65533]%N.
 Proof. vm_compute. reflexivity. Qed.
+
+(* (5) the way back: a printer from statement forests to text (Model/Printer.v: keyword, the argument always as a
+   double-quoted string on one source line with backslash, double quote, line break and tab escaped, then a
+   semicolon or a block in braces, one statement per line) that the reference reader reads back to exactly the
+   forest printed -- for every forest whose keywords are single unquoted tokens ([kw_ok], the keyword pattern
+   included) and whose arguments are ANY rune strings without the end-of-file sentinel ([arg_ok]); a node without
+   argument carries the empty string.  So every such forest is the reading of some text (the reference reader is
+   onto), and the printed text is one the property's quantifier covers (never Ambiguous). *)
+Theorem C02_print_spec : forall f, forest_ok f = true -> spec_parse (print_forest f) = Accept f.
+Proof. exact print_spec_parse. Qed.
+
+(* hence the parser model reads the printed text back: no error, no fuel shortage, the same forest *)
+Theorem C02_print_parse : forall f, forest_ok f = true ->
+  exists ss, Parse (print_forest f) = (ss, [], false) /\ map erase ss = f.
+Proof. exact print_Parse. Qed.
+
+(* the printed text ends in a line break already and never contains the end-of-file sentinel *)
+Theorem C02_print_terminated : forall f, terminated (print_forest f) = print_forest f.
+Proof. exact print_forest_terminated. Qed.
+
+Theorem C02_print_no_eof : forall f, forest_ok f = true -> ~ In EOFR (print_forest f).
+Proof. exact no_eof_forest. Qed.
+
+(* non-vacuity: an empty argument; quote, backslash, line break, tab and trailing blanks in an argument; a nested
+   block; a pattern statement whose argument has a backslash before a letter, before a blank and before a line
+   break; a CR LF and punctuation inside an argument; the keywords + and / *)
+Example C02_print_ex :
+  let f := [Node [97] true [] [];
+            Node [98] false [] [Node [99;47] true [34;92;10;9;32;32] [];
+                                Node [112;97;116;116;101;114;110] true [92;100;92;92;10;32;9;13;10;39;59;123;125;32]
+                                  [Node [47] false [] []]];
+            Node [43] true [43] [];
+            Node [112;97;116;116;101;114;110] true [92;32;10] []]%N in
+  forest_ok f = true /\ spec_parse (print_forest f) = Accept f /\
+  print_forest [Node [97] true [34;92;10;9;32] [Node [98] false [] []]]%N =
+    [97; 32; 34; 92; 34; 92; 92; 92; 110; 92; 116; 32; 34; 32; 123; 10; 98; 59; 10; 125; 10]%N.
+Proof. vm_compute. repeat split; reflexivity. Qed.
